@@ -1,10 +1,13 @@
 import PynguinModel.Lemmas.FsIsolationRun
 import PynguinModel.Lemmas.FsIsolationPath
+import PynguinModel.Lemmas.FsCwd
 /-!
 # C29 — Filesystem isolation never modifies or deletes pre-existing paths
 
 Property theorems about `Model/FsIsolation.lean`, the model of `FilesystemIsolation` **with
-`proposed_fixes/C29-record-only-new-paths.diff` applied**.  They hold for every initial tree in which
+`proposed_fixes/C29-record-only-new-paths.diff` applied**, and about `Model/FsCwd.lean` (working directory,
+relative names, consecutive isolations of one process) **with `proposed_fixes/C29-abspath-cache-respects-cwd.diff`
+applied**.  They hold for every initial tree in which
 every ancestor of an existing path exists (`PrefixClosed`, true of any real directory tree) and for every
 sequence of operations, whatever their arguments and outcomes (refused, failed or successful).
 -/
@@ -120,6 +123,127 @@ theorem C29_spelled_run_restores_tree (init : FS) (ops : List SpOp) (hpc : Prefi
 theorem C29_normal_form_spells_itself (fs : FS) (p : Path) (h : cleanPathB p = true) :
     normSegs p = p ∧ resolvesLikeNorm fs [] p = true :=
   ⟨normSegs_clean h, resolvesLikeNorm_clean fs [] p h⟩
+
+/-! ## the working directory: `os.chdir`, relative names, consecutive isolations in one process
+
+The code under test may change the working directory and name files relative to it; one process runs one
+isolation after the other.  `resolve` (= the repaired `_abspath` = what the operating system does) resolves a
+relative spelling against the working directory OF THE CALL, so every operation runs on some pair of paths and
+the invariant argument goes through unchanged; every exit hands the initial tree to the next isolation. -/
+
+/-- The full property for a process: every isolation it runs — whatever was executed, `chdir`s included, in
+this and in all earlier isolations — leaves exactly the initial tree behind. -/
+def C29_process_full : Prop :=
+  ∀ (init : FS) (cops : List COp) (cwd : Path), PrefixClosed init →
+    ∀ t ∈ exitTrees cops (startC init cwd), ∀ r, get t r = get init r
+
+theorem C29_every_isolation_restores_tree : C29_process_full := by
+  intro init cops cwd hpc t ht r
+  exact exitTrees_restore hpc cops (startC init cwd) (Inv.start init) t ht r
+
+/-- in particular the last one (a single isolation with `chdir`s when there is no `reenter`) -/
+theorem C29_chdir_run_restores_tree (init : FS) (cops : List COp) (cwd : Path) (hpc : PrefixClosed init)
+    (r : Path) : get (exitCleanup (runC cops (startC init cwd)).st) r = get init r :=
+  C29_every_isolation_restores_tree init cops cwd hpc _ (exitTrees_last cops _) r
+
+/-- already during such a process no pre-existing path is modified and none is ever recorded -/
+theorem C29_chdir_preexisting_untouched_during (init : FS) (cops : List COp) (cwd : Path)
+    (hpc : PrefixClosed init) :
+    (∀ r, get init r ≠ none → get (runC cops (startC init cwd)).st.fs r = get init r) ∧
+    (∀ c ∈ (runC cops (startC init cwd)).st.created, get init c = none) :=
+  let h := runC_inv hpc cops (startC init cwd) (Inv.start init)
+  ⟨h.kept, h.fresh⟩
+
+/-- a successful `chdir` moves the working directory to an existing directory, and from then on a relative
+file name denotes the path below THAT directory (not below the directory of an earlier call) -/
+theorem C29_relative_name_follows_chdir (s : CSt) (sp : Spell) (h : (stepC (.chdir sp) s).2 = .ok) :
+    ∃ d, resolve s.cwd sp = some d ∧ isDir s.st.fs d = true ∧ (stepC (.chdir sp) s).1.cwd = some d ∧
+      ∀ segs, cleanPathB segs = true → resolve (stepC (.chdir sp) s).1.cwd ⟨true, segs⟩ = some (d ++ segs) := by
+  simp only [stepC] at h ⊢
+  cases hr : resolve s.cwd sp with
+  | none => simp [hr] at h
+  | some d =>
+    simp only [hr] at h ⊢
+    by_cases hw : walkOk s.st.fs s.cwd sp = true
+    · by_cases hd : isDir s.st.fs d = true
+      · simp only [hw, hd, Bool.not_true, Bool.false_eq_true, if_false, if_true]
+        exact ⟨d, rfl, hd, rfl, fun segs hc => resolve_rel_clean d segs hc⟩
+      · simp [hw, hd] at h
+    · simp [hw] at h
+
+/-- an absolute name is untouched by the working directory (these strings are the only ones still memoised) -/
+theorem C29_absolute_name_ignores_cwd (c1 c2 : Option Path) (segs : List String) :
+    resolve c1 ⟨false, segs⟩ = resolve c2 ⟨false, segs⟩ :=
+  resolve_abs_cwd c1 c2 segs
+
+/-- the memo of the unrepaired `_abspath` is harmless exactly as long as it is not hit by a stale entry: for
+a spelling not used before, or whose memoised resolution is still the current one, the legacy `open` wrapper
+is the modelled one -/
+theorem C29_legacy_memo_current_agrees (sp : Spell) (m : Mode) (data : List Nat) (s : CSt) (memo : Memo)
+    (p : Path) (hr : resolve s.cwd sp = some p) (hm : memoGet memo sp = none ∨ memoGet memo sp = some p) :
+    (legacyOpenC sp m data (s, memo)).1.1.st = (builtinOpen p m data s.st).1 ∧
+    (legacyOpenC sp m data (s, memo)).2 = (builtinOpen p m data s.st).2 :=
+  legacyOpenC_current sp m data s memo p hr hm
+
+/-- the defect of the unrepaired `_normalize_path_cached` (`lru_cache` keyed by the string): `"f"`, first
+resolved in `d1`, is still `d1/f` after `chdir("../d2")`, where it denotes `d2/f` -/
+theorem C29_stale_abspath_cex :
+    let f : Spell := ⟨true, ["f"]⟩
+    let memo := (legacyAbspath [] (some ["d1"]) f).2
+    (legacyAbspath [] (some ["d1"]) f).1 = some ["d1", "f"] ∧
+    (legacyAbspath memo (some ["d2"]) f).1 = some ["d1", "f"] ∧
+    resolve (some ["d2"]) f = some ["d2", "f"] := by decide
+
+/-- … which breaks the property across two isolations of one process: isolation 1 runs `chdir("d1");
+open("f", "w")` and cleans up; isolation 2 (it starts from the initial tree again) runs `chdir("../d2");
+open("f", "w")`: the bookkeeping looks at `d1/f` (absent, hence "new"), the operating system truncates the
+PRE-EXISTING `d2/f`, the exit removes nothing: the file stays overwritten.  The repaired code refuses. -/
+theorem C29_stale_cache_overwrites_preexisting_cex :
+    let init : FS := [([], .dir), (["d1"], .dir), (["d2"], .dir), (["d2", "f"], .file [1])]
+    let f : Spell := ⟨true, ["f"]⟩
+    let a := legacyOpenC f .w [2] (⟨⟨init, []⟩, some ["d1"]⟩, [])
+    let b := legacyOpenC f .w [3] (⟨⟨init, []⟩, some ["d2"]⟩, a.1.2)
+    a.2 = .ok ∧ (∀ r, get (exitCleanup a.1.1.st) r = get init r) ∧
+    b.2 = .ok ∧ get init ["d2", "f"] = some (.file [1]) ∧
+    get (exitCleanup b.1.1.st) ["d2", "f"] = some (.file [3]) ∧
+    (stepC (.op (.fopen .builtin [] .w [3]) f f) ⟨⟨init, []⟩, some ["d2"]⟩).2 = .refused := by
+  refine ⟨by decide, ?_, by decide, by decide, ?_, by decide⟩
+  · intro r
+    have hpc : PrefixClosed ([([], .dir), (["d1"], .dir), (["d2"], .dir), (["d2", "f"], .file [1])] : FS) :=
+      prefixClosed_of_check (by decide)
+    have h := legacyOpenC_current ⟨true, ["f"]⟩ .w [2]
+      ⟨⟨[([], .dir), (["d1"], .dir), (["d2"], .dir), (["d2", "f"], .file [1])], []⟩, some ["d1"]⟩ []
+      ["d1", "f"] (by decide) (Or.inl rfl)
+    rw [h.1]
+    exact exit_restores hpc (builtinOpen_pres hpc _ _ _ _ (Inv.start _)) r
+  · rw [get_exitCleanup]
+    decide
+
+/-- … and inside ONE isolation: `chdir("d1"); open("f", "w"); chdir("../d2"); open("f", "w")` records `d1/f`
+twice and leaves the created `d2/f` behind -/
+theorem C29_stale_cache_leaves_created_behind_cex :
+    let init : FS := [([], .dir), (["d1"], .dir), (["d2"], .dir)]
+    let f : Spell := ⟨true, ["f"]⟩
+    let a := legacyOpenC f .w [2] (⟨⟨init, []⟩, some ["d1"]⟩, [])
+    let b := legacyOpenC f .w [3] (⟨a.1.1.st, some ["d2"]⟩, a.1.2)
+    a.2 = .ok ∧ b.2 = .ok ∧ b.1.1.st.created = [["d1", "f"], ["d1", "f"]] ∧
+    get init ["d2", "f"] = none ∧ get (exitCleanup b.1.1.st) ["d2", "f"] = some (.file [3]) := by
+  refine ⟨by decide, by decide, by decide, by decide, ?_⟩
+  rw [get_exitCleanup]
+  decide
+
+/-- non-vacuity: a process with `chdir`s and relative names really does something — `f` is created in `d1`,
+the same name is refused in `d2` (pre-existing there), `../g` lands in the root -/
+example :
+    let init : FS := [([], .dir), (["d1"], .dir), (["d2"], .dir), (["d2", "f"], .file [1])]
+    let nop : Spell := ⟨false, []⟩
+    let cops : List COp :=
+      [.chdir ⟨true, ["d1"]⟩, .op (.fopen .builtin [] .w [2]) ⟨true, ["f"]⟩ nop,
+       .chdir ⟨true, ["..", "d2"]⟩, .op (.fopen .builtin [] .w [3]) ⟨true, ["f"]⟩ nop,
+       .op (.writeText [] [4]) ⟨true, ["..", "g"]⟩ nop, .chdir ⟨false, ["d2", "f"]⟩]
+    (runLogC cops (startC init [])).2 = [.ok, .ok, .ok, .refused, .ok, .failed] ∧
+    (runLogC cops (startC init [])).1.cwd = some ["d2"] ∧
+    (runLogC cops (startC init [])).1.st.created = [["d1", "f"], ["g"], ["g"], ["g"]] := by decide
 
 /-! ## non-vacuity and the defect of the unrepaired wrapper -/
 
